@@ -229,6 +229,88 @@ def g_rigid(kind):
     return f
 
 
+def _sub_ops(s, kind, edit, arg):
+    """the history itself, shared by the symbolic run and the float64 replay"""
+    atoms = list(s.atoms)
+    sel = [atoms[2], atoms[3]]
+    sub = s.substructure(sel)
+    if kind != "fresh":
+        _ = sub.coords
+        _ = repr(sub.parent_atom_indices)
+    if kind == "del-below":
+        s.del_atom(atoms[0])
+    elif kind == "del-above":
+        s.del_atom(atoms[4])
+    elif kind == "del-between":
+        s.del_atom(atoms[1])
+    elif kind == "two-dels":
+        s.del_atom(atoms[0])
+        _ = sub.coords
+        s.del_atom(atoms[1])
+    before = {id(a): s.coords[i].copy() for i, a in enumerate(s.atoms)}
+    if edit == "translate":
+        sub.translate(arg)
+    else:
+        sub.transform(arg)
+    return atoms, sel, before
+
+
+def g_sub_history(kind, edit):
+    """a Substructure that outlives edits of its parent: created, used once (so that anything cached is cached), then the parent changes, then
+    the substructure is edited: exactly the selected atoms (followed by identity) move"""
+    @with_shim
+    def f():
+        s = mk(5, [(0, 1), (1, 2), (2, 3), (3, 4)])
+        if edit == "translate":
+            t = arg = vec("t")
+        else:
+            k = vec("k")
+            CTX.assume(E(k @ k) > 0)
+            arg = ROT.rotation_matrix_from_axis(k, sym_angle("th"))
+        atoms, sel, before = _sub_ops(s, kind, edit, arg)
+        goals = []
+        for i, a in enumerate(s.atoms):
+            b, c = before[id(a)], s.coords[i]
+            name = f"atom{atoms.index(a)}"
+            if any(a is x for x in sel):
+                if edit == "translate":
+                    goals += [(f"sub-history {kind}: selected {name} moved by t[{j}]", E(c[j]) != E(b[j]) + E(t[j])) for j in range(3)]
+            else:
+                goals += [(f"sub-history {kind}: unselected {name} unchanged[{j}]", E(c[j]) != E(b[j])) for j in range(3)]
+        i2, i3 = [next(i for i, a in enumerate(s.atoms) if a is x) for x in sel]
+        bd = before[id(sel[0])] - before[id(sel[1])]
+        goals += [(f"sub-history {kind}: selected part rigid", E(d2(s.coords, i2, i3)) != E(bd @ bd))]
+        return goals
+    return f
+
+
+def replay_sub_history(kind, edit):
+    def rp(goal, model, path):
+        C = np.array([[sr.fval(model, f"p{i}_{k}") for k in range(3)] for i in range(5)], dtype=float)
+        s = Structure([Atom("C") for _ in range(5)], coords=C)
+        for a, b in [(0, 1), (1, 2), (2, 3), (3, 4)]:
+            s.connect(a, b)
+        if edit == "translate":
+            arg = np.array([sr.fval(model, f"t{i}", 1.0 + i) for i in range(3)])
+            if not np.any(arg):
+                arg = np.array([1.0, 2.0, 3.0])
+        else:
+            k = np.array([sr.fval(model, f"k{i}") for i in range(3)])
+            arg = ORIG_AXIS(k if np.any(k) else np.array([0.0, 0.0, 1.0]), math.atan2(sr.fval(model, "th_s", 1.0), sr.fval(model, "th_c")))
+        try:
+            atoms, sel, before = _sub_ops(s, kind, edit, arg)
+        except Exception as e:
+            return False, f"history '{kind}' then {edit} on a Substructure of atoms 2,3 raised {type(e).__name__}: {e}"
+        probs = []
+        for i, a in enumerate(s.atoms):
+            moved = not np.allclose(s.coords[i], before[id(a)], atol=1e-9)
+            selected = any(a is x for x in sel)
+            if moved != selected and (selected or moved):
+                probs.append(f"atom{atoms.index(a)} {'moved' if moved else 'did not move'} but is {'selected' if selected else 'not selected'}")
+        return (not probs), f"history '{kind}' then {edit} on a Substructure of atoms 2,3: " + ("; ".join(probs) or "exactly the selected atoms moved") + f"; coords {C.tolist()}"
+    return rp
+
+
 def g_ensemble(kind):
     @with_shim
     def f():
@@ -345,7 +427,7 @@ def run(rep, tier):
     q = tier == "quick"
     T = 150 if q else 600
     rep.bounds = {"reals": "all real inputs (vectors, axes, unit-circle angles, coordinates) satisfying the stated non-degeneracy assumptions; QF_NRA, per-component goals",
-                  "atoms": "4-5 atoms, 2 conformers x 3 atoms", "path depth": "<= 6 feasible branch-decision vectors per function", "query cap": f"{T} s hard kill",
+                  "atoms": "4-5 atoms, 2 conformers x 3 atoms", "substructure histories": "a 2-atom Substructure of a 5-atom chain, used once, then 0-2 parent atoms deleted below / between / above the selection, then translated / rotated", "path depth": "<= 6 feasible branch-decision vectors per function", "query cap": f"{T} s hard kill",
                   "dihedral pose": "atoms[1] at the origin, atoms[2] on +z (a rigid pose normalisation), all other coordinates free" + ("; atom 0 in the xz-plane in the quick tier" if q else "")}
     rep.outside = ["floating-point neighbourhood behaviour (v2 within 1e-3..1e-12 of -v1): reals, not floats",
                    "antiparallel branch lemma (e): each recursive call lands in the generic branch (needs Cauchy-Schwarz; did not terminate) — NOT claimed; the branch is covered by lemmas (a) one loop pass, (b) result = M1 @ M2, (c) mapping chain, (d) SO(3) closed under product",
@@ -356,6 +438,7 @@ def run(rep, tier):
     jobs = [("axis", g_axis, replay_axis, 4), ("vectors", g_vectors, replay_vectors, 6), ("map-chain", g_map_chain, None, 2)]
     jobs += [(f"rigid-{k}", g_rigid(k), None, 2) for k in ("translate", "transform", "substructure", "substructure-rotate")]
     jobs += [(f"ens-{k}", g_ensemble(k), None, 2) for k in ("translate-1d", "translate-2d", "rotate", "center_at_atom", "center_at_core")]
+    jobs += [(f"sub-history-{k}-{e}", g_sub_history(k, e), replay_sub_history(k, e), 2) for k in ("fresh", "del-below", "del-above", "del-between", "two-dels") for e in (("translate",) if q else ("translate", "rotate"))]
     jobs += [("dihedral", g_dihedral(False), replay_dihedral, 4)]
     if not q:
         jobs += [("dihedral-free", g_dihedral(True), replay_dihedral, 4), ("so3-product", g_so3_product, None, 2)]
@@ -377,6 +460,10 @@ def run(rep, tier):
 
 def replay(d):
     fn = {"axis": replay_axis, "vectors": replay_vectors, "dihedral": replay_dihedral, "dihedral-free": replay_dihedral}.get(d["label"])
+    if d["label"].startswith("sub-history-"):
+        _, _, rest = d["label"].partition("sub-history-")
+        kind, _, edit = rest.rpartition("-")
+        fn = replay_sub_history(kind, edit)
     if fn is None:
         return True, "no numeric replay for this goal family"
     ok, detail = fn(d["goal"], d["model"], None)
